@@ -158,6 +158,16 @@ def build_inputs(case, d):
                 if not het and pre == "PS" and rng.random() < 0.3:
                     call["GT"] = f"{a}|{b}"; call["PS"] = str(block)
             calls.append(call)
+        if v["decoys"] and rng.random() < 0.12:
+            # a multi-ALT record at the SAME position in front of the biallelic one (what `bcftools norm` leaves when
+            # only some records are split): it is skipped, and the biallelic record behind it is still the one phased
+            ref0 = r["ref"][0]
+            alts0 = ([r["alts"][0]] if len(r["ref"]) == 1 and len(r["alts"][0]) == 1 else [])
+            alts0 += [x for x in "ACGT" if x != ref0 and x not in alts0][:2 - len(alts0)]
+            recs.append(dict(chrom=r["chrom"], pos=r["pos"], ref=ref0, alts=alts0, format=keys,
+                             calls=[other_fields({"GT": rng.choice(["1/2", "0/1", "0/2", "1|2", "./."]),
+                                                  "PS": rng.choice(["66", "."]), "HP": "."}, 2) for _ in sc.samples],
+                             **site_extras(2)))
         recs.append(dict(r, calls=calls, format=keys, **site_extras(1)))
         if not v["decoys"]:
             continue
